@@ -113,7 +113,21 @@ def PInv (W : World) (g : G) (h : Th) : Prop :=
   | _ => True
 
 /-- per-thread invariant -/
+def PC.usesVals : PC → Bool
+  | .pv | .tcIsev | .nested | .nested2 | .nestedPv => true
+  | _ => false
+
+def PC.anyVals : PC → Bool
+  | .nestedErr | .pvErr => true
+  | p => p.usesVals
+
+/-- the conversions recorded so far are those of the keywords already parsed, each by its declared type -/
+def VI (h : Th) : Prop :=
+  (h.pc.usesVals = true → h.vals ++ valsOf h.uses = valsOf (h.calls.headD [])) ∧ (h.pc.anyVals = false → h.vals = [])
+
 structure TInv (W : World) (prog : Nat → List Call) (g : G) (k : Nat) (h : Th) : Prop where
+  vhist  : h.vouts ++ h.calls.map (aloneVals W) = (prog k).map (aloneVals W)
+  valsI  : VI h
   alive  : h.pc.dead = false
   wrongF : h.wrongF = false
   hist   : h.outs ++ h.calls.map (alone W) = (prog k).map (alone W)
@@ -166,17 +180,18 @@ theorem alone_resolved {W : World} {g : G} (G : GInv W g) (R : Resolved W g) (c 
   · rfl
 
 def Good (W : World) (g : G) (t t' : Th) : Prop :=
-  HInv W g t' ∧ t'.pc.inCS = true ∧ t'.calls = t.calls ∧ t'.outs = t.outs ∧ t'.wrongF = t.wrongF
+  HInv W g t' ∧ t'.pc.inCS = true ∧ t'.calls = t.calls ∧ t'.outs = t.outs ∧ t'.wrongF = t.wrongF ∧
+    t'.vals = t.vals ∧ t'.vouts = t.vouts
 
 theorem popAdvance_G {W : World} {g : G} {t : Th} (P : t.popF W g t.popIt) : Good W g t (popAdvance t) := by
   unfold popAdvance
   split
   · rename_i hp
     rw [hp] at P
-    exact ⟨P, rfl, rfl, rfl, rfl⟩
+    exact ⟨P, rfl, rfl, rfl, rfl, rfl, rfl⟩
   · rename_i n ns hp
     rw [hp] at P
-    exact ⟨P, rfl, rfl, rfl, rfl⟩
+    exact ⟨P, rfl, rfl, rfl, rfl, rfl, rfl⟩
 
 theorem enterFinally_G {W : World} {g : G} {t : Th} (P : t.popF W g t.rn) :
     Good W g t (enterFinally W false t) := by
@@ -200,7 +215,7 @@ theorem clearAdvance_G {W : World} {g : G} {t : Th} (P : t.postF W g) :
   unfold clearAdvance
   split
   · exact enterFinally_G P.toPop
-  · exact ⟨P, rfl, rfl, rfl, rfl⟩
+  · exact ⟨P, rfl, rfl, rfl, rfl, rfl, rfl⟩
 
 theorem enterClear_G {W : World} {g : G} {t : Th} (P : t.postF W g) :
     Good W g t (enterClear W false t) := by
@@ -213,9 +228,9 @@ theorem fieldAdvance_G {W : World} {g : G} {t : Th} (G : GInv W g)
     (F : t.fldF W g (fun i => decide (i < t.fi))) : Good W g t (fieldAdvance W t) := by
   unfold fieldAdvance
   split
-  · exact ⟨F, rfl, rfl, rfl, rfl⟩
+  · exact ⟨F, rfl, rfl, rfl, rfl, rfl, rfl⟩
   · rename_i hlt
-    refine ⟨?_, rfl, rfl, rfl, rfl⟩
+    refine ⟨?_, rfl, rfl, rfl, rfl, rfl, rfl⟩
     show PostF W g t.rn t.resolved t.clear t.exc
     refine { toBase := F.toBase, exc0 := F.exc0, sub := F.sub, own := F.own, fty := ?_ }
     intro i hi
@@ -252,7 +267,7 @@ theorem advance_G {W : World} {g : G} {t : Th} (G : GInv W g) (L : t.loopF W g t
     exact afterLoop_G G L
   · rename_i n ns hn
     rw [hn] at L
-    exact ⟨L, rfl, rfl, rfl, rfl⟩
+    exact ⟨L, rfl, rfl, rfl, rfl, rfl, rfl⟩
 
 structure StepOK (W : World) (g g' : G) (t t' : Th) : Prop where
   ginv : GInv W g'
@@ -264,8 +279,9 @@ theorem upd_same {α : Type} (f : Nat → α) (i : Nat) (v : α) : upd f i v i =
 theorem upd_other {α : Type} (f : Nat → α) (i j : Nat) (v : α) (h : j ≠ i) : upd f i v j = f j := by simp [upd, h]
 
 theorem good_of {W : World} {g : G} {t t' : Th} (h : HInv W g t') (hcs : t'.pc.inCS = true)
-    (h1 : t'.calls = t.calls) (h2 : t'.outs = t.outs) (h3 : t'.wrongF = t.wrongF) : Good W g t t' :=
-  ⟨h, hcs, h1, h2, h3⟩
+    (h1 : t'.calls = t.calls) (h2 : t'.outs = t.outs) (h3 : t'.wrongF = t.wrongF)
+    (h4 : t'.vals = t.vals := by rfl) (h5 : t'.vouts = t.vouts := by rfl) : Good W g t t' :=
+  ⟨h, hcs, h1, h2, h3, h4, h5⟩
 
 theorem step_list {W : World} {g : G} {k : Nat} {t : Th} (G : GInv W g) (H : HInv W g t) (hpc : t.pc = .list) :
     StepOK W g (stepTh W false k g t).1 t (stepTh W false k g t).2 := by
@@ -712,46 +728,75 @@ theorem PInv_of_inCS {W : World} {g : G} {t : Th} (h : t.pc.inCS = true) : PInv 
   unfold PInv
   split <;> simp_all [PC.inCS]
 
+macro "vi_uses" : tactic => `(tactic| first | rfl | (symm; assumption))
+
+theorem VI.of {t t' : Th} (h : VI t) (e1 : t'.vals = t.vals) (e2 : t'.uses = t.uses) (e3 : t'.calls = t.calls)
+    (hp : t'.pc.usesVals = true → t.pc.usesVals = true) (hq : t'.pc.anyVals = false → t.pc.anyVals = false) : VI t' :=
+  ⟨fun hu => by rw [e1, e2, e3]; exact h.1 (hp hu), fun ha => by rw [e1]; exact h.2 (hq ha)⟩
+
+theorem inCS_no_vals {p : PC} (h : p.inCS = true) : p.usesVals = false ∧ p.anyVals = false := by
+  cases p <;> simp_all [PC.inCS, PC.usesVals, PC.anyVals]
+
+theorem valsOf_cons (u : Use) (us : List Use) : valsOf (u :: us) = (u.fld, Conv.byType) :: valsOf us := rfl
+
 theorem tinv_of_good {W : World} {prog : Nat → List Call} {g g' : G} {k : Nat} {t t' : Th}
     (T : TInv W prog g k t) (hcs : t.pc.inCS = true) (hg : Good W g' t t') (hl : g'.lock = g.lock) :
     TInv W prog g' k t' := by
-  obtain ⟨h1, h2, h3, h4, h5⟩ := hg
+  obtain ⟨h1, h2, h3, h4, h5, h6, h7⟩ := hg
   have hne : t.calls ≠ [] := T.callNe (by intro h; simp [h, PC.inCS] at hcs) (by intro h; simp [h, PC.inCS] at hcs)
-  refine { alive := PC.inCS_not_dead h2, wrongF := by rw [h5]; exact T.wrongF, hist := by rw [h3, h4]; exact T.hist,
+  have hv0 : t.vals = [] := T.valsI.2 (inCS_no_vals hcs).2
+  refine { vhist := by rw [h3, h7]; exact T.vhist,
+           valsI := ⟨fun hu => by simp [(inCS_no_vals h2).1] at hu, fun _ => by rw [h6]; exact hv0⟩,
+           alive := PC.inCS_not_dead h2, wrongF := by rw [h5]; exact T.wrongF, hist := by rw [h3, h4]; exact T.hist,
            callNe := fun _ _ => by rw [h3]; exact hne, finE := ?_, lockI := ?_, hinv := h1, pinv := PInv_of_inCS h2 }
   · intro h; simp [h, PC.inCS] at h2
   · rw [hl]; simp only [h2, true_iff]; exact T.lockI.mp hcs
 
 theorem tinv_endCall {W : World} {prog : Nat → List Call} {g : G} {k : Nat} {t : Th} (o : Outcome)
     (hist : t.outs ++ t.calls.map (alone W) = (prog k).map (alone W)) (hne : t.calls ≠ [])
-    (ho : o = target W t) (hl : g.lock ≠ some k) : TInv W prog g k (endCall t o) := by
+    (ho : o = target W t) (hl : g.lock ≠ some k)
+    (vh : t.vouts ++ t.calls.map (aloneVals W) = (prog k).map (aloneVals W))
+    (hv : o = .ok → t.vals = valsOf (t.calls.headD [])) : TInv W prog g k (endCall t o) := by
   obtain ⟨c, cs, hc⟩ := List.exists_cons_of_ne_nil hne
   have htg : target W t = alone W c := by simp [target, hc]
+  have hvo : (if o = Outcome.ok then t.vals else []) = aloneVals W c := by
+    unfold aloneVals
+    rw [← htg, ← ho]
+    split
+    · rename_i h; rw [hv h, hc]; rfl
+    · rfl
   unfold endCall
   cases hcs : cs with
   | nil =>
     simp only [hc, hcs, List.tail_cons, List.isEmpty_nil, if_true]
-    refine { alive := rfl, wrongF := rfl, hist := ?_, callNe := by simp, finE := by simp, lockI := ?_, hinv := trivial, pinv := trivial }
+    refine { vhist := ?_, valsI := ⟨by simp [PC.usesVals], fun _ => rfl⟩,
+             alive := rfl, wrongF := rfl, hist := ?_, callNe := by simp, finE := by simp, lockI := ?_, hinv := trivial, pinv := trivial }
+    · rw [← vh, hc, hcs, hvo]; simp
     · rw [← hist, hc, hcs, ho, htg]; simp
     · simp [PC.inCS, hl]
   | cons c' cs' =>
     simp only [hc, hcs, List.tail_cons, List.isEmpty_cons, Bool.false_eq_true, if_false]
-    refine { alive := rfl, wrongF := rfl, hist := ?_, callNe := by simp, finE := by simp, lockI := ?_, hinv := trivial, pinv := trivial }
+    refine { vhist := ?_, valsI := ⟨by simp [PC.usesVals], fun _ => rfl⟩,
+             alive := rfl, wrongF := rfl, hist := ?_, callNe := by simp, finE := by simp, lockI := ?_, hinv := trivial, pinv := trivial }
+    · rw [← vh, hc, hcs, hvo]; simp
     · rw [← hist, hc, hcs, ho, htg]; simp
     · simp [PC.inCS, hl]
 
 theorem tinv_parseNext {W : World} {prog : Nat → List Call} {g : G} {k : Nat} {t : Th}
     (R : Resolved W g) (hw : t.wrongF = false)
     (hist : t.outs ++ t.calls.map (alone W) = (prog k).map (alone W)) (hne : t.calls ≠ [])
-    (hu : parseOutcome W t.uses = target W t) (hl : g.lock ≠ some k) : TInv W prog g k (parseNext t) := by
+    (hu : parseOutcome W t.uses = target W t) (hl : g.lock ≠ some k)
+    (vh : t.vouts ++ t.calls.map (aloneVals W) = (prog k).map (aloneVals W))
+    (hvals : t.vals ++ valsOf t.uses = valsOf (t.calls.headD [])) : TInv W prog g k (parseNext t) := by
   unfold parseNext
   split
   · rename_i h0
     rw [hw]
-    apply tinv_endCall _ hist hne _ hl
-    rw [← hu, h0]; rfl
+    refine tinv_endCall _ hist hne ?_ hl vh ?_
+    · rw [← hu, h0]; rfl
+    · intro _; rw [← hvals, h0]; simp [valsOf]
   · rename_i u us h0
-    refine { alive := rfl, wrongF := hw, hist := hist, callNe := fun _ _ => hne, finE := by simp, lockI := ?_, hinv := trivial, pinv := ?_ }
+    refine { vhist := vh, valsI := ⟨fun _ => hvals, by simp [PC.anyVals, PC.usesVals]⟩, alive := rfl, wrongF := hw, hist := hist, callNe := fun _ _ => hne, finE := by simp, lockI := ?_, hinv := trivial, pinv := ?_ }
     · simp [PC.inCS, hl]
     · simp only [PInv]
       exact ⟨R, by simp [h0], hu⟩
@@ -759,9 +804,11 @@ theorem tinv_parseNext {W : World} {prog : Nat → List Call} {g : G} {k : Nat} 
 theorem tinv_startParse {W : World} {prog : Nat → List Call} {g : G} {k : Nat} {t : Th} (GI : GInv W g)
     (R : Resolved W g) (hw : t.wrongF = false)
     (hist : t.outs ++ t.calls.map (alone W) = (prog k).map (alone W)) (hne : t.calls ≠ [])
-    (hl : g.lock ≠ some k) : TInv W prog g k (startParse t) := by
+    (hl : g.lock ≠ some k)
+    (vh : t.vouts ++ t.calls.map (aloneVals W) = (prog k).map (aloneVals W)) (hv0 : t.vals = []) :
+    TInv W prog g k (startParse t) := by
   unfold startParse
-  refine tinv_parseNext (t := { t with uses := t.calls.headD [] }) R hw hist hne ?_ hl
+  refine tinv_parseNext (t := { t with uses := t.calls.headD [] }) R hw hist hne ?_ hl vh (by simp [hv0])
   simp only [target]
   exact (alone_resolved GI R _).symm
 
@@ -769,12 +816,18 @@ theorem tinv_nextUse {W : World} {prog : Nat → List Call} {g : G} {k : Nat} {t
     (R : Resolved W g) (hw : t.wrongF = false)
     (hist : t.outs ++ t.calls.map (alone W) = (prog k).map (alone W)) (hne : t.calls ≠ [])
     (h0 : t.uses = u :: us) (hf : fails W u = false)
-    (hu : parseOutcome W t.uses = target W t) (hl : g.lock ≠ some k) : TInv W prog g k (nextUse t) := by
+    (hu : parseOutcome W t.uses = target W t) (hl : g.lock ≠ some k)
+    (vh : t.vouts ++ t.calls.map (aloneVals W) = (prog k).map (aloneVals W))
+    (hvals : t.vals ++ valsOf t.uses = valsOf (t.calls.headD [])) : TInv W prog g k (nextUse t) := by
   unfold nextUse
-  refine tinv_parseNext (t := { t with uses := t.uses.tail }) R hw hist hne ?_ hl
-  rw [h0] at hu
-  simp only [parseOutcome, hf] at hu
-  simpa [h0, target] using hu
+  refine tinv_parseNext
+    (t := { t with uses := t.uses.tail, vals := t.vals ++ (t.uses.head?.map fun u => (u.fld, Conv.byType)).toList })
+    R hw hist hne ?_ hl vh ?_
+  · rw [h0] at hu
+    simp only [parseOutcome, hf] at hu
+    simpa [h0, target] using hu
+  · rw [h0, valsOf_cons] at hvals
+    simpa [h0] using hvals
 
 
 /-- what one step of thread `k` guarantees -/
@@ -829,8 +882,9 @@ theorem step_unlock {W : World} {prog : Nat → List Call} {g : G} {k : Nat} {t 
   | some e =>
     simp only
     obtain ⟨h1, h2, h3⟩ := H.excSome e he
-    apply tinv_endCall _ T.hist hne _ hl'
-    rw [h1, target, alone_stuck h2 h3]
+    refine tinv_endCall _ T.hist hne ?_ hl' T.vhist ?_
+    · rw [h1, target, alone_stuck h2 h3]
+    · intro h; rw [h1] at h; cases h
   | none =>
     simp only
     have R : Resolved W { g with lock := none } := by
@@ -839,10 +893,11 @@ theorem step_unlock {W : World} {prog : Nat → List Call} {g : G} {k : Nat} {t 
       · simp at h
       · exact h
     split
-    · refine { alive := rfl, wrongF := T.wrongF, hist := T.hist, callNe := fun _ _ => hne, finE := by simp,
+    · refine { vhist := T.vhist, valsI := T.valsI.of rfl (by vi_uses) rfl (by simp [hpc, PC.usesVals]) (by simp [hpc, PC.usesVals, PC.anyVals]),
+                                        alive := rfl, wrongF := T.wrongF, hist := T.hist, callNe := fun _ _ => hne, finE := by simp,
                lockI := by simp [PC.inCS], hinv := trivial, pinv := ?_ }
       simp only [PInv]; exact R
-    · exact tinv_startParse GI' R T.wrongF T.hist hne hl'
+    · exact tinv_startParse GI' R T.wrongF T.hist hne hl' T.vhist (T.valsI.2 (by simp [hpc, PC.anyVals, PC.usesVals]))
 
 theorem step_chk {W : World} {prog : Nat → List Call} {g : G} {k : Nat} {t : Th} (GI : GInv W g)
     (T : TInv W prog g k t) (hpc : t.pc = .chkBase ∨ t.pc = .chk) :
@@ -853,6 +908,7 @@ theorem step_chk {W : World} {prog : Nat → List Call} {g : G} {k : Nat} {t : T
   have hne : t.calls ≠ [] := T.callNe (by rcases hpc with h | h <;> simp [h]) (by rcases hpc with h | h <;> simp [h])
   have same : ∀ t', TInv W prog g k t' → ThreadOK W prog g g k t' :=
     fun t' h => ⟨GI, h, fun _ h => h, Or.inl rfl⟩
+  have hv0 : t.vals = [] := T.valsI.2 (by rcases hpc with h | h <;> simp [h, PC.anyVals, PC.usesVals])
   unfold stepChk
   split
   · rename_i he
@@ -861,10 +917,11 @@ theorem step_chk {W : World} {prog : Nat → List Call} {g : G} {k : Nat} {t : T
       intro i hi
       have : g.pending = [] := by simpa using he
       simp [this] at hi
-    exact tinv_startParse GI R T.wrongF T.hist hne hl
+    exact tinv_startParse GI R T.wrongF T.hist hne hl T.vhist hv0
   · apply same
     simp only [Bool.false_eq_true, if_false]
-    refine { alive := rfl, wrongF := T.wrongF, hist := T.hist, callNe := fun _ _ => hne, finE := by simp,
+    refine { vhist := T.vhist, valsI := ⟨by simp [PC.usesVals], fun _ => hv0⟩,
+                                        alive := rfl, wrongF := T.wrongF, hist := T.hist, callNe := fun _ _ => hne, finE := by simp,
              lockI := by simp [PC.inCS, hl], hinv := ?_, pinv := trivial }
     simp [HInv]
 
@@ -886,11 +943,13 @@ theorem step_thread {W : World} {prog : Nat → List Call} {g : G} {k : Nat} {t 
     by_cases he : t.calls.isEmpty = true
     · simp only [he, if_true]
       have hc : t.calls = [] := by simpa using he
-      exact { alive := rfl, wrongF := T.wrongF, hist := T.hist, callNe := by simp, finE := fun _ => hc,
+      exact { vhist := T.vhist, valsI := T.valsI.of rfl (by vi_uses) rfl (by simp [hpc, PC.usesVals]) (by simp [hpc, PC.usesVals, PC.anyVals]),
+                                        alive := rfl, wrongF := T.wrongF, hist := T.hist, callNe := by simp, finE := fun _ => hc,
               lockI := by simp [PC.inCS, hl], hinv := trivial, pinv := trivial }
     · simp only [he]
       have hc : t.calls ≠ [] := by simpa using he
-      exact { alive := rfl, wrongF := T.wrongF, hist := T.hist, callNe := fun _ _ => hc, finE := by simp,
+      exact { vhist := T.vhist, valsI := T.valsI.of rfl (by vi_uses) rfl (by simp [hpc, PC.usesVals]) (by simp [hpc, PC.usesVals, PC.anyVals]),
+                                        alive := rfl, wrongF := T.wrongF, hist := T.hist, callNe := fun _ _ => hc, finE := by simp,
               lockI := by simp [PC.inCS, hl], hinv := trivial, pinv := trivial }
   | chk =>
     simp only [stepTh, hpc]
@@ -902,7 +961,8 @@ theorem step_thread {W : World} {prog : Nat → List Call} {g : G} {k : Nat} {t 
     · apply same
       have hl := hncs (by simp [hpc, PC.inCS])
       have hne : t.calls ≠ [] := T.callNe (by simp [hpc]) (by simp [hpc])
-      exact { alive := rfl, wrongF := T.wrongF, hist := T.hist, callNe := fun _ _ => hne, finE := by simp,
+      exact { vhist := T.vhist, valsI := T.valsI.of rfl (by vi_uses) rfl (by simp [hpc, PC.usesVals]) (by simp [hpc, PC.usesVals, PC.anyVals]),
+                                        alive := rfl, wrongF := T.wrongF, hist := T.hist, callNe := fun _ _ => hne, finE := by simp,
               lockI := by simp [PC.inCS, hl], hinv := trivial, pinv := trivial }
   | lock =>
     simp only [stepTh, hpc]
@@ -919,7 +979,8 @@ theorem step_thread {W : World} {prog : Nat → List Call} {g : G} {k : Nat} {t 
       refine ⟨?_, ?_, fun _ h => h, Or.inr ⟨Or.inr hlk, Or.inl rfl⟩⟩
       · exact { nodup := GI.nodup, isRef := GI.isRef, undef := GI.undef, done := GI.done, plain := GI.plain,
                 noJunk := GI.noJunk, free := by simp }
-      · refine { alive := rfl, wrongF := T.wrongF, hist := T.hist, callNe := fun _ _ => hne, finE := by simp,
+      · refine { vhist := T.vhist, valsI := T.valsI.of rfl (by vi_uses) rfl (by simp [hpc, PC.usesVals]) (by simp [hpc, PC.usesVals, PC.anyVals]),
+                                        alive := rfl, wrongF := T.wrongF, hist := T.hist, callNe := fun _ _ => hne, finE := by simp,
                  lockI := by simp [PC.inCS], hinv := ?_, pinv := trivial }
         simp only [HInv]
         exact ⟨H.1, H.2.1, H.2.2.1, H.2.2.2, GI.free hlk⟩
@@ -959,7 +1020,8 @@ theorem step_thread {W : World} {prog : Nat → List Call} {g : G} {k : Nat} {t 
     have hl := hncs (by simp [hpc, PC.inCS])
     have hne : t.calls ≠ [] := T.callNe (by simp [hpc]) (by simp [hpc])
     simp only [PInv, hpc] at P
-    refine { alive := rfl, wrongF := T.wrongF, hist := T.hist, callNe := fun _ _ => hne, finE := by simp,
+    refine { vhist := T.vhist, valsI := T.valsI.of rfl (by vi_uses) rfl (by simp [hpc, PC.usesVals]) (by simp [hpc, PC.usesVals, PC.anyVals]),
+                                        alive := rfl, wrongF := T.wrongF, hist := T.hist, callNe := fun _ _ => hne, finE := by simp,
              lockI := by simp [PC.inCS, hl], hinv := trivial, pinv := ?_ }
     simp only [PInv]; exact P
   | frfRet =>
@@ -968,21 +1030,22 @@ theorem step_thread {W : World} {prog : Nat → List Call} {g : G} {k : Nat} {t 
     have hl := hncs (by simp [hpc, PC.inCS])
     have hne : t.calls ≠ [] := T.callNe (by simp [hpc]) (by simp [hpc])
     simp only [PInv, hpc] at P
-    exact tinv_startParse GI P T.wrongF T.hist hne hl
+    exact tinv_startParse GI P T.wrongF T.hist hne hl T.vhist (T.valsI.2 (by simp [hpc, PC.anyVals, PC.usesVals]))
   | pvErr =>
     simp only [stepTh, hpc]
     apply same
     have hl := hncs (by simp [hpc, PC.inCS])
     have hne : t.calls ≠ [] := T.callNe (by simp [hpc]) (by simp [hpc])
     simp only [PInv, hpc] at P
-    exact tinv_endCall _ T.hist hne P.2.symm hl
+    exact tinv_endCall _ T.hist hne P.2.symm hl T.vhist (by intro h; cases h)
   | nestedErr =>
     simp only [stepTh, hpc]
     apply same
     have hl := hncs (by simp [hpc, PC.inCS])
     have hne : t.calls ≠ [] := T.callNe (by simp [hpc]) (by simp [hpc])
     simp only [PInv, hpc] at P
-    refine { alive := rfl, wrongF := T.wrongF, hist := T.hist, callNe := fun _ _ => hne, finE := by simp,
+    refine { vhist := T.vhist, valsI := T.valsI.of rfl (by vi_uses) rfl (by simp [hpc, PC.usesVals]) (by simp [hpc, PC.usesVals, PC.anyVals]),
+                                        alive := rfl, wrongF := T.wrongF, hist := T.hist, callNe := fun _ _ => hne, finE := by simp,
              lockI := by simp [PC.inCS, hl], hinv := trivial, pinv := ?_ }
     simp only [PInv]; exact P
   | tcIsev =>
@@ -994,7 +1057,8 @@ theorem step_thread {W : World} {prog : Nat → List Call} {g : G} {k : Nat} {t 
     apply same
     have hev := (GI.undef _ hr hd).2.1
     simp only [hev, Bool.false_eq_true, if_false]
-    refine { alive := rfl, wrongF := T.wrongF, hist := T.hist, callNe := fun _ _ => hne, finE := by simp,
+    refine { vhist := T.vhist, valsI := T.valsI.of rfl (by vi_uses) rfl (by simp [hpc, PC.usesVals]) (by simp [hpc, PC.usesVals, PC.anyVals]),
+                                        alive := rfl, wrongF := T.wrongF, hist := T.hist, callNe := fun _ _ => hne, finE := by simp,
              lockI := by simp [PC.inCS, hl], hinv := trivial, pinv := ?_ }
     simp only [PInv]
     refine ⟨R, ?_⟩
@@ -1008,7 +1072,8 @@ theorem step_thread {W : World} {prog : Nat → List Call} {g : G} {k : Nat} {t 
     obtain ⟨R, hu, u, us, h0, hrd⟩ := P
     simp only [stepTh, hpc, h0]
     apply same
-    refine { alive := rfl, wrongF := T.wrongF, hist := T.hist, callNe := fun _ _ => hne, finE := by simp,
+    refine { vhist := T.vhist, valsI := T.valsI.of rfl (by vi_uses) rfl (by simp [hpc, PC.usesVals]) (by simp [hpc, PC.usesVals, PC.anyVals]),
+                                        alive := rfl, wrongF := T.wrongF, hist := T.hist, callNe := fun _ _ => hne, finE := by simp,
              lockI := by simp [PC.inCS, hl], hinv := trivial, pinv := ?_ }
     simp only [PInv]
     refine ⟨R, ?_, u, us, rfl, hrd⟩
@@ -1021,7 +1086,8 @@ theorem step_thread {W : World} {prog : Nat → List Call} {g : G} {k : Nat} {t 
     obtain ⟨R, hu, u, us, h0, hrd⟩ := P
     simp only [stepTh, hpc, h0]
     apply same
-    refine { alive := rfl, wrongF := T.wrongF, hist := T.hist, callNe := fun _ _ => hne, finE := by simp,
+    refine { vhist := T.vhist, valsI := T.valsI.of rfl (by vi_uses) rfl (by simp [hpc, PC.usesVals]) (by simp [hpc, PC.usesVals, PC.anyVals]),
+                                        alive := rfl, wrongF := T.wrongF, hist := T.hist, callNe := fun _ _ => hne, finE := by simp,
              lockI := by simp [PC.inCS, hl], hinv := trivial, pinv := ?_ }
     simp only [PInv]
     refine ⟨R, ?_, u, us, rfl, hrd⟩
@@ -1037,7 +1103,8 @@ theorem step_thread {W : World} {prog : Nat → List Call} {g : G} {k : Nat} {t 
     cases hb : u.bad with
     | true =>
       simp only [if_true]
-      refine { alive := rfl, wrongF := T.wrongF, hist := T.hist, callNe := fun _ _ => hne, finE := by simp,
+      refine { vhist := T.vhist, valsI := T.valsI.of rfl (by vi_uses) rfl (by simp [hpc, PC.usesVals]) (by simp [hpc, PC.usesVals, PC.anyVals]),
+                                        alive := rfl, wrongF := T.wrongF, hist := T.hist, callNe := fun _ _ => hne, finE := by simp,
                lockI := by simp [PC.inCS, hl], hinv := trivial, pinv := ?_ }
       simp only [PInv]
       refine ⟨R, ?_⟩
@@ -1046,7 +1113,7 @@ theorem step_thread {W : World} {prog : Nat → List Call} {g : G} {k : Nat} {t 
       simp [parseOutcome, fails, hb]
     | false =>
       simp only [Bool.false_eq_true, if_false]
-      refine tinv_nextUse R T.wrongF T.hist hne h0 ?_ hu hl
+      refine tinv_nextUse R T.wrongF T.hist hne h0 ?_ hu hl T.vhist (T.valsI.1 (by simp [hpc, PC.usesVals]))
       simp only [fails, hb, Bool.false_or, Bool.and_eq_false_iff, Bool.not_eq_false']
       cases hr : W.ref u.fld with
       | false => exact Or.inl rfl
@@ -1071,7 +1138,8 @@ theorem step_thread {W : World} {prog : Nat → List Call} {g : G} {k : Nat} {t 
         cases h : W.defd u.fld with
         | false => rfl
         | true => have := resolved_fty GI R hr h; rw [hf] at this; cases this
-      refine { alive := rfl, wrongF := T.wrongF, hist := T.hist, callNe := fun _ _ => hne, finE := by simp,
+      refine { vhist := T.vhist, valsI := T.valsI.of rfl (by vi_uses) rfl (by simp [hpc, PC.usesVals]) (by simp [hpc, PC.usesVals, PC.anyVals]),
+                                        alive := rfl, wrongF := T.wrongF, hist := T.hist, callNe := fun _ _ => hne, finE := by simp,
                lockI := by simp [PC.inCS, hl], hinv := trivial, pinv := ?_ }
       simp only [PInv]
       exact ⟨R, hu', u, us, rfl, hr, hd⟩
@@ -1085,7 +1153,8 @@ theorem step_thread {W : World} {prog : Nat → List Call} {g : G} {k : Nat} {t 
         cases hb : u.bad with
         | true =>
           simp only [if_true]
-          refine { alive := rfl, wrongF := T.wrongF, hist := T.hist, callNe := fun _ _ => hne, finE := by simp,
+          refine { vhist := T.vhist, valsI := T.valsI.of rfl (by vi_uses) rfl (by simp [hpc, PC.usesVals]) (by simp [hpc, PC.usesVals, PC.anyVals]),
+                                        alive := rfl, wrongF := T.wrongF, hist := T.hist, callNe := fun _ _ => hne, finE := by simp,
                    lockI := by simp [PC.inCS, hl], hinv := trivial, pinv := ?_ }
           simp only [PInv]
           refine ⟨R, ?_⟩
@@ -1094,7 +1163,7 @@ theorem step_thread {W : World} {prog : Nat → List Call} {g : G} {k : Nat} {t 
           simp [parseOutcome, fails, hb]
         | false =>
           simp only [Bool.false_eq_true, if_false]
-          exact tinv_nextUse R T.wrongF T.hist hne h0 (by simp [fails, hb, hr]) hu hl
+          exact tinv_nextUse R T.wrongF T.hist hne h0 (by simp [fails, hb, hr]) hu hl T.vhist (T.valsI.1 (by simp [hpc, PC.usesVals]))
       | true =>
         have hd : W.defd u.fld = true := by
           cases h : W.defd u.fld with
@@ -1104,7 +1173,8 @@ theorem step_thread {W : World} {prog : Nat → List Call} {g : G} {k : Nat} {t 
           have := resolved_fty GI R hr hd; rw [hf] at this; cases this; rfl
         subst hv
         simp only [Bool.not_true, Bool.false_eq_true, if_false]
-        refine { alive := rfl, wrongF := T.wrongF, hist := T.hist, callNe := fun _ _ => hne, finE := by simp,
+        refine { vhist := T.vhist, valsI := T.valsI.of rfl (by vi_uses) rfl (by simp [hpc, PC.usesVals]) (by simp [hpc, PC.usesVals, PC.anyVals]),
+                                        alive := rfl, wrongF := T.wrongF, hist := T.hist, callNe := fun _ _ => hne, finE := by simp,
                  lockI := by simp [PC.inCS, hl], hinv := trivial, pinv := ?_ }
         simp only [PInv]
         exact ⟨R, hu, u, us, h0, fun _ => hd⟩
@@ -1115,8 +1185,8 @@ theorem Resolved.mono {W : World} {g g' : G} (R : Resolved W g) (h : ∀ i ∈ g
 theorem tinv_frame {W : World} {prog : Nat → List Call} {g g' : G} {j : Nat} {h : Th}
     (T : TInv W prog g j h) (hlock : h.pc.inCS = true ↔ g'.lock = some j)
     (hsame : h.pc.inCS = true → g' = g) (hpend : ∀ i ∈ g'.pending, i ∈ g.pending) : TInv W prog g' j h := by
-  refine { alive := T.alive, wrongF := T.wrongF, hist := T.hist, callNe := T.callNe, finE := T.finE,
-           lockI := hlock, hinv := ?_, pinv := ?_ }
+  refine { vhist := T.vhist, valsI := T.valsI, alive := T.alive, wrongF := T.wrongF, hist := T.hist,
+           callNe := T.callNe, finE := T.finE, lockI := hlock, hinv := ?_, pinv := ?_ }
   · by_cases hcs : h.pc.inCS = true
     · rw [hsame hcs]; exact T.hinv
     · have H := T.hinv
@@ -1172,7 +1242,8 @@ theorem inv_init (W : World) (prog : Nat → List Call) : Inv W prog (init W pro
       simp only [init, G.init, List.mem_filter, List.mem_range] at hi
       simp [init, G.init, World.ref, hi.1, hi.2]
   · intro k
-    exact { alive := rfl, wrongF := rfl, hist := by simp [init], callNe := by simp [init], finE := by simp [init],
+    exact { vhist := by simp [init], valsI := ⟨by simp [init, PC.usesVals], fun _ => rfl⟩,
+            alive := rfl, wrongF := rfl, hist := by simp [init], callNe := by simp [init], finE := by simp [init],
             lockI := by simp [init, G.init, PC.inCS], hinv := trivial, pinv := trivial }
 
 theorem inv_run {W : World} {prog : Nat → List Call} (sched : List Nat) :
